@@ -566,22 +566,19 @@ class LookupFailed(KeyError):
 
 # classes an HTTP handler might confuse with *request* errors (its 400 tuples name TypeError,
 # ArrowInvalid, StopIteration, VersionError) next to ordinary ones
-_HTTP_CLASSES = (
+_HTTP_CLASSES_QUICK = (
     ValueError,
-    RuntimeError,
     TypeError,
     BadShapeError,
     pa.ArrowInvalid,
     StopIteration,
     KeyError,
-    LookupFailed,
     AppError,
-    KindedAppError,
     common.VersionError,
     common.ProtocolVersionError,
     common.MethodNotImplementedError,
-    common.SessionLostError,
 )
+_HTTP_CLASSES = pick(_HTTP_CLASSES_QUICK, _HTTP_CLASSES_QUICK + (RuntimeError, LookupFailed, KindedAppError, common.SessionLostError, common.ServerDrainingError, ZeroDivisionError))
 _H_UNARY, _H_INIT, _H_PRODUCE_FIRST, _H_PRODUCE_LATER, _H_EXCHANGE_FIRST, _H_EXCHANGE_LATER = 0, 1, 2, 3, 4, 5
 _IN_SCHEMA = pa.schema([pa.field("x", pa.int64())])
 _IN_BATCH = pa.RecordBatch.from_pydict({"x": [1]}, schema=_IN_SCHEMA)
@@ -649,9 +646,28 @@ class _RecClient:
         return getattr(self._inner, name)
 
 
+_STACKS: dict = {}
+
+
+def _http_stack(chunked: bool):  # type: ignore[no-untyped-def]
+    """The in-process HTTP server + connected client proxy, built once (concrete, outside tracing).
+
+    ``chunked``: max_response_bytes=1, so a producer hands out a continuation token after every batch."""
+    if chunked not in _STACKS:
+        import contextlib
+
+        from vgi_rpc.http import http_connect, make_sync_client
+
+        client = _RecClient(make_sync_client(srv.RpcServer(_HProto, _HImpl(), server_id="srv"), token_key=b"k" * 32, max_response_bytes=1 if chunked else None))
+        stack = contextlib.ExitStack()
+        proxy = stack.enter_context(http_connect(_HProto, client=client))
+        _STACKS[chunked] = (client, proxy, stack)
+    client, proxy, _ = _STACKS[chunked]
+    return client, proxy
+
+
 def _http_site(ci: int, site: int) -> str | None:
     """Drive one scenario through the real HTTP stack; returns a problem description or None."""
-    from vgi_rpc.http import http_connect, make_sync_client
     from vgi_rpc.rpc import AnnotatedBatch
 
     cls = _HTTP_CLASSES[ci]
@@ -659,11 +675,10 @@ def _http_site(ci: int, site: int) -> str | None:
     _S["exc"] = exc
     _S["site"] = site
     _S["step"] = 0
-    # max_response_bytes=1: a producer hands out a continuation token after every batch
-    client = _RecClient(make_sync_client(srv.RpcServer(_HProto, _HImpl(), server_id="srv"), token_key=b"k" * 32, max_response_bytes=1 if site == _H_PRODUCE_LATER else None))
+    client, proxy = _http_stack(site == _H_PRODUCE_LATER)
     err = None
     good: list = []
-    with http_connect(_HProto, client=client) as proxy:
+    if True:
         n0 = len(client.log)
         try:
             if site == _H_UNARY:
@@ -719,42 +734,93 @@ class _WallClock:
         raise HarnessModelError("clock stub touched through " + name)
 
 
-def _http_modules() -> list:
-    import sys
+class _Native:
+    """A C library module used *as it is*, outside CrossHair's tracer: CrossHair swaps struct /
+    base64 / binascii calls for symbolic models whose results (SymbolicBytes even for concrete
+    arguments) pyarrow and the AEAD library refuse.  All arguments on this path are concrete."""
 
-    return [m for n, m in sorted(sys.modules.items()) if n.startswith("vgi_rpc.") and m is not None and getattr(m, "time", None) is not None
-            and getattr(getattr(m, "time"), "__name__", "") == "time"]
+    def __init__(self, module) -> None:  # type: ignore[no-untyped-def]
+        self._module = module
+
+    def __getattr__(self, name: str):  # type: ignore[no-untyped-def]
+        target = getattr(self._module, name)
+        if not callable(target) or isinstance(target, type):
+            return target
+
+        def call(*a, **k):  # type: ignore[no-untyped-def]
+            try:
+                from crosshair.tracers import NoTracing, is_tracing
+            except ImportError:  # pragma: no cover
+                return target(*a, **k)
+            if not is_tracing():
+                return target(*a, **k)
+            with NoTracing():
+                return target(*a, **k)
+
+        return call
+
+
+_NATIVE_NAMES = ("struct", "base64", "binascii")
 
 
 def _with_stub_clock(fn, *a):  # type: ignore[no-untyped-def]
-    """Run ``fn`` with the module-level name ``time`` of every loaded vgi_rpc module bound to the
-    concrete clock (the same effect as re-globalising each of their functions with time=stub);
-    restored afterwards so replays run on the untouched modules."""
-    mods = _http_modules()
-    saved = [(m, m.time) for m in mods]
+    """Run ``fn`` with the module-level names ``time`` (-> concrete clock) and struct/base64/binascii
+    (-> the same C module, called outside the tracer) of every loaded vgi_rpc module rebound: the same
+    effect as re-globalising each of their functions.  Restored afterwards, so replays run untouched."""
+    import sys
+
+    saved = []
     clock = _WallClock()
-    for m in mods:
-        m.time = clock
+    for n, m in sorted(sys.modules.items()):
+        if not n.startswith("vgi_rpc") or m is None:
+            continue
+        for name in ("time",) + _NATIVE_NAMES:
+            cur = m.__dict__.get(name)
+            if cur is not None and getattr(cur, "__name__", "") == name and type(cur).__name__ == "module":
+                saved.append((m, name, cur))
+                setattr(m, name, clock if name == "time" else _Native(cur))
     try:
         return fn(*a)
     finally:
-        for m, t in saved:
-            m.time = t
+        for m, name, cur in saved:
+            setattr(m, name, cur)
 
 
-def _replay_http_site(args: dict) -> str | None:
-    return _http_site(args["ci"], args["site"])
+_HTTP_ENCODED = [aps_mod._run_http_exchange_turn, aps_mod._run_http_producer_turn, aps_mod._run_stream_init_sync, aps_mod._run_stream_exchange_sync, apu_mod._run_unary_sync, resp_mod._set_error_response, resp_mod._set_http_status]
+_HTTP_STUBS = ["time (module-level name in vgi_rpc modules) := concrete counter", "struct / base64 / binascii := the same C modules, invoked outside the tracer (identity)"]
+_SITE_NAMES = ("unary", "stream_init", "first_produce", "later_produce", "first_exchange", "later_exchange")
 
 
-@cond(q=90, t=300, encoded=[aps_mod._run_http_exchange_turn, aps_mod._run_http_producer_turn, aps_mod._run_stream_init_sync, aps_mod._run_stream_exchange_sync, apu_mod._run_unary_sync, resp_mod._set_error_response, resp_mod._set_http_status],
-      stubs=["time (module-level name in vgi_rpc modules) := concrete counter"], replay=_replay_http_site, signature=lambda a, c: "C07:http-site:error-not-200-with-marker",
-      bound="%d exception classes (incl. TypeError and a subclass, ArrowInvalid, StopIteration, KeyError and a subclass, VersionError, typed framework errors) x 6 HTTP dispatch sites (unary, stream init, first / later produce, first / later exchange); real falcon WSGI stack, tokens, pyarrow, json" % len(_HTTP_CLASSES))
-def error_at_http_sites(ci: int, site: int) -> bool:
-    """
-    pre: 0 <= ci < len(_HTTP_CLASSES) and 0 <= site <= 5
-    post: _
-    """
-    try:
-        return _with_stub_clock(_http_site, _concrete(ci, len(_HTTP_CLASSES)), _concrete(site, 6)) is None
-    except Exception:  # noqa: BLE001
-        return False
+def _make_http_item(site: int):  # type: ignore[no-untyped-def]
+    def replay(args: dict) -> str | None:
+        return _http_site(args["ci"], site)
+
+    def item(ci: int) -> bool:
+        """
+        pre: 0 <= ci < len(_HTTP_CLASSES)
+        post: _
+        """
+        try:
+            return _with_stub_clock(_http_site, _concrete(ci, len(_HTTP_CLASSES)), site) is None
+        except Exception:  # noqa: BLE001
+            return False
+
+    item.__name__ = item.__qualname__ = "http_error_at_" + _SITE_NAMES[site]
+    return cond(q=60, t=180, encoded=_HTTP_ENCODED, stubs=_HTTP_STUBS, replay=replay, signature=lambda a, c: "C07:http-site:%s:error-not-200-with-marker" % _SITE_NAMES[site],
+                bound="HTTP site '%s' x %d exception classes (TypeError and a subclass, ArrowInvalid, StopIteration, KeyError and a subclass, VersionError, typed framework errors, ...); real falcon WSGI stack, tokens, pyarrow, json" % (_SITE_NAMES[site], len(_HTTP_CLASSES)))(item)
+
+
+# one item per site so that they run in parallel (a full HTTP request costs ~1.5 s under the tracer)
+http_error_at_unary = _make_http_item(_H_UNARY)
+http_error_at_stream_init = _make_http_item(_H_INIT)
+http_error_at_first_produce = _make_http_item(_H_PRODUCE_FIRST)
+http_error_at_later_produce = _make_http_item(_H_PRODUCE_LATER)
+http_error_at_first_exchange = _make_http_item(_H_EXCHANGE_FIRST)
+http_error_at_later_exchange = _make_http_item(_H_EXCHANGE_LATER)
+
+
+# Warm-up outside tracing: PyCryptodome's cffi accessors are created lazily on first use and that
+# creation path does not survive CrossHair's tracer; one concrete run of each streaming scenario
+# populates them (and falcon's lazily compiled router) before any symbolic run.
+for _site in (_H_UNARY, _H_PRODUCE_LATER, _H_EXCHANGE_LATER):
+    _http_site(0, _site)
